@@ -150,6 +150,10 @@ class HTAIL(Harness):
         out.ob("result_target_type", res["target_type"] == tt)
         out.ob("result_problem_type", res["problem_type"] == ("bound constraints" if bounded else "unconstrained"))
         out.ob("result_mesh_size", res["mesh_size"] == self_.mesh_size)
+        documented = {"fun", "non_box_cons", "x0", "x", "fval", "fsd", "yval_vec", "ysd_vec", "mesh_size", "func_count", "iterations", "message",
+                      "problem_type", "target_type", "total_time", "overhead", "random_seed", "version", "success"}
+        out.ob("result_has_exactly_the_documented_fields", documented <= set(dict.keys(res)) <= set(ormod.OptimizeResult._keys)
+               and all(getattr(res, k) is res[k] for k in dict.keys(res)))
         # returned x = inverse transform of the final u
         U = np.asarray(_raw(self_.u))
         out.ob("x_is_inverse_transform_of_final_u", len(inv_calls) == 1 and O.And(O.rows_eq(inv_calls[0][0], U, 0.0),
